@@ -92,7 +92,7 @@ class Gen:
         return IntLit(ty, v)
 
     def str_lit(self):
-        if self.rng.random() < 0.2:
+        if self.rng.random() < 0.3:
             return StrLit(self.rng.choice(UTF8_WORDS).encode())
         return StrLit(self.rng.choice(ASCII_WORDS))
 
